@@ -53,6 +53,7 @@ def execute(case):
     h = History(case)
     w = h.world
     k = w.kernel
+    k = w.kernel
     viols = []
     classes = set()
     singletons = set(wc["name"] for wc in case["watchers"]
@@ -142,7 +143,39 @@ def execute(case):
 
     try:
         h.start()
-        h.run(on_op, before_op)
+        if case.get("alone"):
+            # one waiting exclusive request, nothing else: when its reply is
+            # written the operation has ended, the daemon must not go on
+            # spawning or signalling on its own afterwards
+            op = case["ops"][0]
+            req = w.request(op[1], json.loads(json.dumps(op[2])))
+            w.advance_until(lambda: req.answered, w.loop.time() + 60.0)
+            if req.answered and not w.dead:
+                n0 = (len(k.spawn_log), len([e for e in k.signal_log]))
+                t0 = w.loop.time()
+                w.drain(60.0)
+                n1 = (len(k.spawn_log), len([e for e in k.signal_log]))
+                classes.add('alone')
+                if n1 != n0:
+                    hk = [e for e in h.hook_log
+                          if e["hook"] == 'after_spawn' and
+                          e["outcome"] != 'true']
+                    viols.append(Violation(
+                        'C10:operation-continues-after-its-reply:%s%s' % (
+                            op[1], ':after_spawn-failure' if hk else ''),
+                        '%s (waiting) was answered at t=%.3f with nothing '
+                        'else in flight, yet afterwards the daemon spawned '
+                        '%r and signalled %r' % (
+                            op[1], t0,
+                            [r["pid"] for r in k.spawn_log[n0[0]:]],
+                            [(e["pid"], e["sig"], round(e["t"], 3))
+                             for e in k.signal_log[n0[1]:]])))
+            elif not req.answered and not w.dead:
+                viols.append(Violation(
+                    'C10:A-replies:%s:0' % op[1],
+                    'waiting %s alone never answered' % op[1]))
+        else:
+            h.run(on_op, before_op)
         ok = h.settle(checks=0)
         if w.blocked:
             viols.append(Violation('C10:blocked:%s' % w.blocked_where,
@@ -220,6 +253,8 @@ A_KINDS = {
     "incr-bad-nb": ("incr", {"name": "w0", "nb": "x"}),
     "reloadconfig": ("reloadconfig", {}),
     "restart-hook": ("restart", {"name": "wh", "match": "simple"}),
+    "incr-exec-fails": ("incr", {"name": "w0", "nb": 2}),
+    "incr-spawn-hook-false": ("incr", {"name": "ws", "nb": 1}),
 }
 B_KINDS = {
     "stop": ("stop", {"name": "w0", "match": "simple"}),
@@ -247,6 +282,9 @@ def _base_watchers():
         {"name": "wh", "numprocesses": 1, "graceful_timeout": 0.2,
          "warmup_delay": 0.1,
          "hooks": {"after_start": ["raise", False]}},
+        # two workers run; any *further* spawn is refused by the hook
+        {"name": "ws", "numprocesses": 2, "graceful_timeout": 0.3,
+         "hooks": {"before_spawn": ["third-false", False]}},
     ]
 
 
@@ -262,7 +300,14 @@ def _enum_case(a, b, m, idle_first, stubborn):
     ops.append(["drain"])
     beh = {"react": "ignore"} if stubborn else {"react": "die",
                                                 "delay": 0.15}
-    return {"watchers": _base_watchers(), "default_beh": beh, "tape": [],
+    tape = []
+    watchers = _base_watchers()
+    if a == 'incr-exec-fails':
+        # daemon start consumes 6 tape entries (w0 x2, w2, wh, ws x2); the
+        # next exec fails and w0 gives up after one try
+        tape = [dict(beh) for _ in range(6)] + [dict(beh, exec_fail=True)]
+        watchers[0]["max_retry"] = 1
+    return {"watchers": watchers, "default_beh": beh, "tape": tape,
             "ops": ops}
 
 
@@ -290,6 +335,19 @@ def _a_length(a, stubborn):
 def _enumerate(spec, stats):
     found = {}
     for a, stubborn in spec["as"]:
+        alone = _enum_case(a, "incr-unknown", 0, False, stubborn)
+        alone["ops"] = alone["ops"][:1]
+        alone["alone"] = True
+        v, nt, cl = execute(alone)
+        stats.record(alone, True, cl)
+        for x in v:
+            if x["signature"] in spec["known"]:
+                stats.known_hits[x["signature"]] = \
+                    stats.known_hits.get(x["signature"], 0) + 1
+            elif x["signature"] not in found:
+                found[x["signature"]] = {"signature": x["signature"],
+                                         "message": x["message"],
+                                         "case": alone}
         length = _a_length(a, stubborn)
         stats.count('A-kinds')
         for b in sorted(B_KINDS):
@@ -314,7 +372,8 @@ def _strategy():
     base = lifecycle_cases(
         requests=('incr', 'decr', 'set', 'restart', 'reload', 'stop',
                   'start'),
-        hooks=True, exec_fail=True, rm=True, max_watchers=3, max_ops=20)
+        hooks=True, exec_fail=True, rm=True, max_watchers=3, max_ops=20,
+        set_other=True)
 
     @st.composite
     def case(draw):
